@@ -8,13 +8,20 @@
 //   RES   = Canonicalize under the case's limits: ok:<hex> | E | panic
 //   SPEC  = Canonicalize under generous limits when the walked tree is complete: ok:<hex>,
 //           "cap" for an error on a tree that contains a capability, "-" for incomplete trees
-//   FLAGS = R<b>I<b>G<b>P1 for an ok SPEC: R = the output, read back as a message, is Equal
+//   FLAGS = R<b>I<b>G<b>P1K<b>J<b> for an ok SPEC: R = the output, read back as a message, is Equal
 //           to the input; I = canonicalising the output returns it unchanged; G = same bytes
-//           as the first member of the group (other layouts / schema versions of one value)
+//           as the first member of the group (other layouts / schema versions of one value);
+//           K = every blob returned earlier in this process (this case's and the last 64 cases')
+//           is still byte-identical after the later Canonicalize calls; J = canonicalising a
+//           message that lives IN the returned buffer returns the same bytes and leaves it intact
+// kind "big/...": boundary-size structs (32767 / 32768 / 65535 data words or pointers); the
+//   list-based model is quadratic on them, so only the implementation-side predicates are
+//   evaluated (R I K J and X = the bytes the generator expects); obs is "big" when all hold.
 package main
 
 import (
 	"bytes"
+	"encoding/binary"
 	"fmt"
 	"regexp"
 	"strconv"
@@ -148,6 +155,60 @@ func idempotent(out []byte) (ok bool) {
 	return err == nil && bytes.Equal(b, out)
 }
 
+// kept: blobs returned by earlier Canonicalize calls (the returned slice itself and a snapshot)
+type keptBlob struct{ ret, snap []byte }
+
+var kept []keptBlob
+
+func keep(ret []byte) []byte {
+	snap := append([]byte(nil), ret...)
+	kept = append(kept, keptBlob{ret, snap})
+	if len(kept) > 64 {
+		kept = kept[len(kept)-64:]
+	}
+	return snap
+}
+
+func keptIntact() bool {
+	for _, k := range kept {
+		if !bytes.Equal(k.ret, k.snap) {
+			return false
+		}
+	}
+	return true
+}
+
+var sentinel = func() capnp.Struct {
+	m := &capnp.Message{Arena: capnp.SingleSegment(rd.Words(rd.StructPtr(0, 2, 0), 0x1122334455667788, 0x99aabbccddeeff01))}
+	p, err := m.Root()
+	if err != nil {
+		panic(err)
+	}
+	return p.Struct()
+}()
+
+// inPlace: canonicalise a message whose single segment IS the returned buffer.
+func inPlace(ret, snap []byte) (ok bool) {
+	defer func() {
+		if e := recover(); e != nil {
+			ok = false
+		}
+	}()
+	om := &capnp.Message{Arena: capnp.SingleSegment(ret), TraverseLimit: genT}
+	q, err := om.Root()
+	if err != nil {
+		return false
+	}
+	b, err := capnp.Canonicalize(q.Struct())
+	return err == nil && bytes.Equal(b, snap) && bytes.Equal(ret, snap)
+}
+
+// later calls must not disturb earlier results
+func laterCalls() {
+	defer func() { recover() }()
+	capnp.Canonicalize(sentinel)
+}
+
 // observe: ref = canonical bytes of the first member of the case's group (nil: this is the first member).
 func observe(ref []byte, m *rd.Msg, s string) (string, []byte) {
 	res, _ := canonObs(m, m.T, m.D, s)
@@ -160,10 +221,16 @@ func observe(ref []byte, m *rd.Msg, s string) (string, []byte) {
 	case spec == "E" && capRe.MatchString(tree):
 		spec = "cap"
 	case out != nil:
+		snap := keep(out)
 		if ref == nil {
-			ref = out
+			ref = snap
 		}
-		flags = "R" + bit(readBackEqual(m, s, out)) + "I" + bit(idempotent(out)) + "G" + bit(bytes.Equal(ref, out)) + "P1"
+		laterCalls() // first: no allocation-heavy work (GC would empty a buffer pool) before the later call
+		k1 := keptIntact()
+		j1 := inPlace(out, snap)
+		r1, i1 := readBackEqual(m, s, snap), idempotent(snap)
+		flags = "R" + bit(r1) + "I" + bit(i1) + "G" + bit(bytes.Equal(ref, snap)) + "P1K" + bit(k1) + "J" + bit(j1)
+		out = snap
 	}
 	return fmt.Sprintf("%s %s %s %s", res, spec, flags, tree), out
 }
@@ -171,13 +238,90 @@ func observe(ref []byte, m *rd.Msg, s string) (string, []byte) {
 var limitsT = []uint64{0, 0, 0, 0, 8, 16, 64, 200, 1024, 1 << 20}
 var limitsD = []uint{0, 0, 0, 0, 1, 2, 3, 4, 5, 6, 8, 64, 70}
 
+// ---------------------------------------------------------------- boundary sizes
+// bigMsg: root pointer -> struct with dw data words (the first len(lead) words = lead, rest 0)
+// and pc pointers (pointer 0 = an empty struct when firstPtr, rest null); for list=true the
+// struct is the single element of a struct list held by a one-pointer root struct.
+func bigMsg(dw, pc int, lead []uint64, firstPtr, list bool) []byte {
+	var ws []uint64
+	if list {
+		ws = append(ws, rd.StructPtr(0, 0, 1), rd.ListPtr(0, 7, uint32(dw+pc)), rd.StructPtr(1, uint16(dw), uint16(pc)))
+	} else {
+		ws = append(ws, rd.StructPtr(0, uint16(dw), uint16(pc)))
+	}
+	body := make([]uint64, dw+pc)
+	copy(body, lead)
+	if firstPtr && pc > 0 {
+		body[dw] = rd.StructPtr(-1, 0, 0)
+	}
+	return rd.Words(append(ws, body...)...)
+}
+
+// bigExpect: the canonical form of bigMsg(...) (lead has no trailing zero word)
+func bigExpect(lead []uint64, firstPtr, list bool, pc int) []byte {
+	np := 0
+	if firstPtr && pc > 0 {
+		np = 1
+	}
+	var ws []uint64
+	body := append([]uint64(nil), lead...)
+	if np == 1 {
+		body = append(body, rd.StructPtr(-1, 0, 0))
+	}
+	if list {
+		ws = append(ws, rd.StructPtr(0, 0, 1), rd.ListPtr(0, 7, uint32(len(lead)+np)), rd.StructPtr(1, uint16(len(lead)), uint16(np)))
+	} else if len(lead)+np == 0 {
+		return rd.Words(rd.StructPtr(-1, 0, 0))
+	} else {
+		ws = append(ws, rd.StructPtr(0, uint16(len(lead)), uint16(np)))
+	}
+	return rd.Words(append(ws, body...)...)
+}
+
+// dataBig: the root (or the single list element) has few pointers, i.e. the size is in the data
+// section (the model-side decoder is linear on those; pointer-big structs stay predicate-only)
+func dataBig(seg []byte) bool {
+	w := binary.LittleEndian.Uint64(seg)
+	if w>>48 <= 4 && (w>>32)&0xffff >= 1000 {
+		return true
+	}
+	if len(seg) >= 24 { // root {0,1} -> struct list with one element: tag at word 2
+		t := binary.LittleEndian.Uint64(seg[16:])
+		return w == rd.StructPtr(0, 0, 1) && t>>48 <= 4 && (t>>32)&0xffff >= 1000
+	}
+	return false
+}
+
+func observeBig(m *rd.Msg, expect []byte) string {
+	_, out := canonObs(m, genT, 0, "r")
+	if out == nil {
+		return "big-FAIL:no-output"
+	}
+	snap := keep(out)
+	laterCalls()
+	k1 := keptIntact()
+	j1 := inPlace(out, snap)
+	r1, i1 := readBackEqual(m, "r", snap), idempotent(snap)
+	x1 := expect == nil || bytes.Equal(snap, expect)
+	if r1 && i1 && k1 && j1 && x1 {
+		if len(m.Segs) == 1 && len(m.Segs[0]) > 200000 && len(snap) < 4096 && dataBig(m.Segs[0]) {
+			// data-big input: the decoder + specification are evaluated by the model side too
+			return "big ok:" + Hx(snap)
+		}
+		return "big"
+	}
+	return "big-FAIL:R" + bit(r1) + "I" + bit(i1) + "K" + bit(k1) + "J" + bit(j1) + "X" + bit(x1)
+}
+
 func run(out *Out, r *Rand, tier string, replay []string) {
 	gr := map[string][]byte{}
 	if replay != nil {
 		for _, l := range replay {
 			f := strings.Fields(l)
 			obs := "bad-case"
-			if len(f) == 7 {
+			if len(f) == 7 && strings.HasPrefix(f[0], "big") {
+				obs = observeBig(rd.ParseHeader(f[2:6]), nil)
+			} else if len(f) == 7 {
 				var ref []byte
 				if g := strings.SplitN(f[1], ":", 2); len(g) == 2 && g[1] != "-" {
 					ref = Unhx(g[1])
@@ -218,6 +362,23 @@ func run(out *Out, r *Rand, tier string, replay []string) {
 			sp = "ok"
 		}
 		out.Case(strings.SplitN(kind, "/", 2)[0], line, obs, cls+"/spec="+sp, f[1] != "-")
+	}
+	// boundary sizes: 32767 / 32768 / 65535 data words and pointers (struct and struct-list element)
+	for _, dw := range []int{32767, 32768, 65535} {
+		for _, list := range []bool{false, true} {
+			lead := []uint64{r.U64() | 1, 0, r.U64() | 1}[:1+2*r.Intn(2)]
+			fp := r.Bool()
+			pc := []int{0, 2}[r.Intn(2)]
+			m := &rd.Msg{Segs: [][]byte{bigMsg(dw, pc, lead, fp, list)}, Arena: "M"}
+			line := fmt.Sprintf("big/d%d g0:- %s r", dw, m.Header())
+			out.Case("big", line, observeBig(m, bigExpect(lead, fp, list, pc)), "big", true)
+		}
+	}
+	for _, pc := range []int{32768, 65535} {
+		lead := []uint64{r.U64() | 1}[:r.Intn(2)]
+		m := &rd.Msg{Segs: [][]byte{bigMsg(len(lead), pc, lead, true, false)}, Arena: "M"}
+		line := fmt.Sprintf("big/p%d g0:- %s r", pc, m.Header())
+		out.Case("big", line, observeBig(m, bigExpect(lead, true, false, pc)), "big", true)
 	}
 	for i := 0; i < n; i++ {
 		g := &vt.Gen{R: r, Budget: 6 + r.Intn(30), Caps: r.Intn(8) == 0}
